@@ -83,8 +83,13 @@ func TestC15(t *testing.T) {
 		if c15Lanes[li] > 1 {
 			exp["lanes>1"]++
 		}
-		if c15KeyLens[ki] > 64 {
+		klOverridden := m.Thorough() && i%13 == 3
+		lanesOverridden := m.Thorough() && i%97 == 5
+		if c15KeyLens[ki] > 64 && !klOverridden {
 			exp["keylen>64"]++
+		}
+		if mc == 4 && c15Lanes[li] <= 2 && !lanesOverridden {
+			exp["segment>128_blocks"]++
 		}
 	}
 
@@ -121,8 +126,8 @@ func TestC15(t *testing.T) {
 		case 3: // 8p .. 12p-1: the first values above the minimum (rounds to 8p)
 			mem = 2*unit + uint32(r.IntN(int(unit)))
 		case 4: // segment length above 128: second address block for the data-independent passes
-			if p <= 4 {
-				mem = unit*(129+uint32(r.IntN(80))) + uint32(r.IntN(int(unit)))
+			if p <= 2 {
+				mem = unit*(129+uint32(r.IntN(32))) + uint32(r.IntN(int(unit)))
 			} else { // too expensive with many lanes: medium segments instead
 				memCls = "seg 17..48 (many lanes)"
 				mem = unit*(17+uint32(r.IntN(32))) + uint32(r.IntN(int(unit)))
@@ -244,7 +249,7 @@ func TestC15(t *testing.T) {
 		// evidence counters for the classes the property's quantifier names
 		m.Count(fmt.Sprintf("mode:%d", mode), 1)
 		m.Count("mem:"+c15MemCls[mc], 1)
-		if mc == 4 && p <= 4 {
+		if mc == 4 && p <= 2 {
 			m.Count("segment>128_blocks", 1)
 		}
 		if p > 1 {
@@ -278,7 +283,7 @@ func TestC15(t *testing.T) {
 	})
 
 	np := len(paths)
-	for _, k := range []string{"mode:0", "mode:1", "lanes>1", "keylen>64"} {
+	for _, k := range []string{"mode:0", "mode:1", "lanes>1", "keylen>64", "segment>128_blocks"} {
 		m.Gate(k, exp[k], "every case of this class reached the oracle comparison (count fixed by construction)")
 	}
 	for _, c := range c15MemCls {
@@ -290,5 +295,5 @@ func TestC15(t *testing.T) {
 	_ = np
 	m.Gate("empty_password", total/16, "empty passwords forced by index")
 	m.Gate("empty_salt", total/16, "empty salts forced by index")
-	m.Gate("witness:libgcrypt", total/2, "libgcrypt computed the same case and agreed with the reference")
+	m.Gate("witness:libgcrypt", total/4, "libgcrypt computed the same case and agreed with the reference")
 }
